@@ -131,4 +131,74 @@ example : (ev c16Env 6 .evaluate (.logged 2 (.value 1 (.int 7)) "m") (.dict []) 
     (fun p => p.2.events.any Event.isLog) = some true := by decide +kernel
 example : (ev c16Env 5 .evaluate (.cached 2 (.value 1 (.int 7)) 0) (.dict []) {}).isSome = true := by decide +kernel
 
+/-! ### The option spellings of the switches are options like any other: references resolve
+
+  `Option("LABREA.CACHE.DISABLED", …)` is evaluated through `Option.evaluate`, which resolves templates: a switch given as
+  `"{DEBUG}"` is on exactly when `DEBUG` resolves to a truthy value (a direct dictionary lookup would see the non-empty
+  string and switch caching off although the switch is off). -/
+
+private theorem resolve_whole_reference' (n : Nat) (k : String) (o v : V) (r : Except RErr V) (rd : List String)
+    (hf : findKeys ("{" ++ k ++ "}") = [k]) (hg : getDotted k o = .found v) (hr : resolveR n v o = some (r, rd)) :
+    resolveR (n + 1) (.str ("{" ++ k ++ "}")) o = some (r, k :: rd) := by
+  simp [resolveR, hf, hg, hr]
+
+/-- an Option whose value is a whole-string reference `"{K}"` evaluates to what `K` resolves to (here: a value that
+    resolves to itself — a boolean, a number, None, a brace-free string), whatever its default -/
+theorem option_reference_resolves (env : Env) (hsub : env.subst = Option.none) (n : Nat) (o : V) (id : Nat) (key : String)
+    (dflt : Option Expr) (k : String) (d : V)
+    (hf : findKeys ("{" ++ k ++ "}") = [k])
+    (h1 : getDotted key o = .found (.str ("{" ++ k ++ "}")))
+    (h2 : getDotted k o = .found d) (hd : resolveR (n + 1) d o = some (.ok d, [])) (s : St) :
+    ∃ s', ev env (n + 3) .evaluate (.option id key dflt Option.none) o s = some (.ok d, s') := by
+  have hr := resolve_whole_reference' (n + 1) k o d (.ok d) [] hf h2 hd
+  simp [ev, hsub, nodeOp, optionOp, readKey, bind_run, emit_run, pure_run, h1, wrapEvaluate, handle, resolveM, hr, emitAll]
+
+theorem cache_switch_follows_reference (env : Env) (hoff : env.cacheCtxOff = false) (hsub : env.subst = Option.none)
+    (n : Nat) (o : V) (k : String) (d : V)
+    (hf : findKeys ("{" ++ k ++ "}") = [k])
+    (h1 : getDotted "LABREA.CACHE.DISABLED" o = .found (.str ("{" ++ k ++ "}")))
+    (h2 : getDotted k o = .found d) (hd : resolveR (n + 1) d o = some (.ok d, [])) (s : St) :
+    ∃ s', cacheDisabled env (ev env (n + 3)) o s = some (.ok d.truthy, s') := by
+  obtain ⟨s', hs'⟩ := option_reference_resolves env hsub n o (tid 0 1) "LABREA.CACHE.DISABLED"
+    (some (optFalse (tid 0 2) "LABREA.CACHE.DISABLE" (.value (tid 0 3) (.bool false)))) k d hf h1 h2 hd s
+  refine ⟨s', ?_⟩
+  simp only [cacheDisabled, hoff, Bool.false_eq_true, if_false, cacheDisabledOption, optFalse] at *
+  simp [bind_run, hs', pure_run]
+
+/-- the second spelling: `LABREA.CACHE.DISABLED` absent, `LABREA.CACHE.DISABLE` a reference -/
+theorem cache_switch_second_spelling_follows_reference (env : Env) (hoff : env.cacheCtxOff = false) (hsub : env.subst = Option.none)
+    (n : Nat) (o : V) (k : String) (d : V)
+    (hf : findKeys ("{" ++ k ++ "}") = [k])
+    (h0 : getDotted "LABREA.CACHE.DISABLED" o = .keyErr)
+    (h1 : getDotted "LABREA.CACHE.DISABLE" o = .found (.str ("{" ++ k ++ "}")))
+    (h2 : getDotted k o = .found d) (hd : resolveR (n + 1) d o = some (.ok d, [])) (s : St) :
+    ∃ s', cacheDisabled env (ev env (n + 4)) o s = some (.ok d.truthy, s') := by
+  simp only [cacheDisabled, hoff, Bool.false_eq_true, if_false, cacheDisabledOption, optFalse]
+  have hr := resolve_whole_reference' (n + 1) k o d (.ok d) [] hf h2 hd
+  simp [ev, hsub, nodeOp, optionOp, readKey, bind_run, emit_run, pure_run, h0, h1, wrapEvaluate, handle, resolveM, hr, emitAll]
+
+theorem effects_switch_follows_reference (env : Env) (hsub : env.subst = Option.none)
+    (n : Nat) (o : V) (k : String) (d : V)
+    (hf : findKeys ("{" ++ k ++ "}") = [k])
+    (h1 : getDotted "LABREA.EFFECTS.DISABLED" o = .found (.str ("{" ++ k ++ "}")))
+    (h2 : getDotted k o = .found d) (hd : resolveR (n + 1) d o = some (.ok d, [])) (s : St) :
+    ∃ s', ev env (n + 3) .evaluate effectsDisabledOption o s = some (.ok d, s') :=
+  option_reference_resolves env hsub n o _ _ _ k d hf h1 h2 hd s
+
+theorem logging_switch_follows_reference (env : Env) (hsub : env.subst = Option.none)
+    (n : Nat) (o : V) (k : String) (d : V)
+    (hf : findKeys ("{" ++ k ++ "}") = [k])
+    (h1 : getDotted "LABREA.LOGGING.DISABLED" o = .found (.str ("{" ++ k ++ "}")))
+    (h2 : getDotted k o = .found d) (hd : resolveR (n + 1) d o = some (.ok d, [])) (s : St) :
+    ∃ s', ev env (n + 3) .evaluate loggingDisabledOption o s = some (.ok d, s') :=
+  option_reference_resolves env hsub n o _ _ _ k d hf h1 h2 hd s
+
+/-- the hypotheses are satisfiable: `{'LABREA': {'CACHE': {'DISABLED': '{DEBUG}'}}, 'DEBUG': False}` — caching is NOT
+    disabled -/
+example (env : Env) (hoff : env.cacheCtxOff = false) (hsub : env.subst = Option.none) (s : St) :
+    ∃ s', cacheDisabled env (ev env 3)
+      (.dict [("DEBUG", .bool false), ("LABREA", .dict [("CACHE", .dict [("DISABLED", .str "{DEBUG}")])])]) s
+      = some (.ok false, s') :=
+  cache_switch_follows_reference env hoff hsub 0 _ "DEBUG" (.bool false) (by decide) (by decide) (by decide) (by simp [resolveR]) s
+
 end Labrea
